@@ -52,7 +52,10 @@ def render_core(b):
 
 
 def render_body(b):
-    # a throw that nothing inside B catches is caught around B
+    # a throw that nothing inside B catches is caught around B; bodies that do not throw get no handler of their own
+    # (a function whose only stack-holding construct is the one under test)
+    if b["exit"] not in ("throw", "throw_midexpr"):
+        return render_core(b)
     return "try { " + render_core(b) + " } catch (eB) { acc+=13 }"
 
 
